@@ -1,5 +1,6 @@
 import Tup.Drv.Db
 import Tup.Model.Txn
+import Tup.Model.Schema
 /-!
   Stateless driver requests of the transaction model (C03 / C12): the **block structure** of one public
   `IDManager` call run alone.
@@ -145,6 +146,7 @@ def handle : List String → Option String
       | .finished r => pure s!"ok {blocksStr bs} {resultStr r}"
       | _ => pure s!"unfinished {blocksStr bs}"
   | "txn" :: _ => some "bad"
+  | ["schema", "stmts"] => some (String.intercalate ";" (Tup.Schema.stmts.map Tup.Schema.Obj.render))
   | _ => none
 
 end Tup.Drv.Txn
